@@ -6,6 +6,13 @@
 //                                     ERR  (text not accepted by the parser)
 //   S <line> <col> <pos> <hex-text>   veryl_token::split_comment_token (hook verif_split_comment_token)
 //                                     on a comment-run token:  OK <n> {<line> <col> <pos> <len> <hex-text>}
+//   E <va> <maxw> <indw> <nl> <strip> <hex-text>
+//                                     analyze + Emitter::emit with a source map, [format] vertical_align=<va:0|1>
+//                                     max_width indent_width newline_style=<nl:auto|unix|windows>, [build]
+//                                     strip_comments=<strip:0|1>:
+//                                     OK <analyzer-errors> <hex-sv> <hex-map-json>      | ERR (parse error)
+//   M <nl> <hex-text>                 veryl_migrator: old-grammar Parser + Migrator::migrate:
+//                                     OK <hex-migrated-text>                            | ERR <msg> (old parser rejects)
 //   PANIC <msg>                       the call panicked
 use std::io::{self, BufRead, Write};
 use veryl_parser::Parser;
@@ -51,7 +58,11 @@ fn tok_text(t: &Token) -> String {
 fn do_tokens(text: &str) -> String {
     let parser = match Parser::parse(text, &"case.veryl") {
         Ok(p) => p,
-        Err(_) => return "ERR".to_string(),
+        Err(e) => {
+            let m = format!("{e:?}");
+            let m: String = m.chars().filter(|c| !c.is_control()).take(300).collect();
+            return format!("ERR {m}");
+        }
     };
     let mut c = Collect::default();
     c.veryl(&parser.veryl);
@@ -89,6 +100,65 @@ fn do_split(line: u32, col: u32, pos: u32, text: &str) -> String {
     s
 }
 
+fn metadata(va: &str, maxw: &str, indw: &str, nl: &str, strip: &str) -> veryl_metadata::Metadata {
+    use veryl_metadata::NewlineStyle;
+    let mut m = veryl_metadata::Metadata::create_default("prj").unwrap();
+    m.format.vertical_align = va == "1";
+    m.format.max_width = maxw.parse().unwrap();
+    m.format.indent_width = indw.parse().unwrap();
+    m.format.newline_style = match nl {
+        "unix" => NewlineStyle::Unix,
+        "windows" => NewlineStyle::Windows,
+        _ => NewlineStyle::Auto,
+    };
+    m.build.strip_comments = strip == "1";
+    m
+}
+
+fn do_emit(m: &veryl_metadata::Metadata, text: &str) -> String {
+    use std::path::PathBuf;
+    use veryl_analyzer::{Analyzer, Context};
+    let analyzer = Analyzer::new(m);
+    analyzer.clear();
+    let parser = match Parser::parse(text, &"case.veryl") {
+        Ok(p) => p,
+        Err(_) => return "ERR".to_string(),
+    };
+    let mut errors = Vec::new();
+    let mut context = Context::default();
+    errors.append(&mut analyzer.analyze_pass1("prj", &parser.veryl));
+    errors.append(&mut Analyzer::analyze_post_pass1());
+    errors.append(&mut analyzer.analyze_pass2(&parser.veryl, &mut context, None));
+    let nerr = errors.iter().filter(|e| e.is_error()).count();
+    let mut emitter = veryl_emitter::Emitter::new(
+        m,
+        "prj",
+        &PathBuf::from("case.veryl"),
+        &PathBuf::from("case.sv"),
+        &PathBuf::from("case.sv.map"),
+    );
+    emitter.emit(&parser.veryl, text);
+    let sv = emitter.as_str().to_string();
+    let map = emitter.source_map().to_bytes().unwrap_or_default();
+    let map = String::from_utf8(map).unwrap_or_default();
+    format!("OK {} {} {}", nerr, hex(&sv), hex(&map))
+}
+
+fn do_migrate(nl: &str, text: &str) -> String {
+    let m = metadata("1", "120", "4", nl, "0");
+    let parser = match veryl_migrator::Parser::parse(text, &"case.veryl") {
+        Ok(p) => p,
+        Err(e) => {
+            let s = format!("{e:?}");
+            let s: String = s.chars().filter(|c| !c.is_control()).take(200).collect();
+            return format!("ERR {s}");
+        }
+    };
+    let mut mig = veryl_migrator::Migrator::new(&m);
+    mig.migrate(&parser.veryl, text);
+    format!("OK {}", hex(mig.as_str()))
+}
+
 fn run_case(line: &str) -> String {
     let f: Vec<&str> = line.split_whitespace().collect();
     match f[0] {
@@ -99,6 +169,8 @@ fn run_case(line: &str) -> String {
             f[3].parse().unwrap(),
             &unhex(f[4]),
         ),
+        "E" => do_emit(&metadata(f[1], f[2], f[3], f[4], f[5]), &unhex(f[6])),
+        "M" => do_migrate(f[1], &unhex(f[2])),
         x => panic!("bad mode {x}"),
     }
 }
